@@ -116,7 +116,9 @@ def unit_calendar(ctx):
             _log(ctx, "encoding %-5s %s" % (n, e.error or "%d SMT lines, %d division lemmas, %d panic obligations, %s" % (
                 len(e.S.lines), e.S.n_divlemmas, len(e.ex.panics), e.S.logic())))
         obs = cal.obligations(encs, ctx.tier)
-        vectors, problems = cal.validation_vectors(cal.parse_native(out))
+        vectors, problems, notes = cal.validation_vectors(cal.parse_native(out))
+        for n in notes[:5]:
+            _log(ctx, "note: " + n)
         validations = _validate_all(ctx, u, encs, vectors, problems)
         driver.decide_all(ctx, obs, validations, u.dir, lambda ob: nat)
     except (engine.EngineError, Unsupported, Inconclusive) as e:
@@ -125,3 +127,46 @@ def unit_calendar(ctx):
         _fail_all(ctx, [n for n in C15_NAMES if not any(o["obligation"] == n for o in ctx.smt)],
                   "E2 calendar unit internal error: %s\n%s" % (e, traceback.format_exc()[-1200:]))
     _log(ctx, "calendar unit done in %.0fs" % (time.time() - t0))
+
+
+# ---------------------------------------------------------------- C08: batcher arithmetic (Delay / Retry / Capacity)
+
+C08_NAMES = ["O6_delay_next", "O6_retry_next_step", "O6_retry_true_at_most_max_times", "O6_capacity_next"]
+
+
+def unit_batcher_arith(ctx):
+    from mir2smt import batcher_ob as bat
+    t0 = time.time()
+    try:
+        u = _Unit(ctx, "batcher")
+        nat = u.native("batcher", [("batcher", [], True)], append=[(bat.FILE, bat.WRAPPER)])
+        with concurrent.futures.ThreadPoolExecutor(max_workers=2) as pool:
+            f_mir = pool.submit(u.mir, "batcher", True)
+            f_warm = pool.submit(nat.run, "fn main() {}\n")      # compiles the dependencies while the MIR is dumped
+            mir = f_mir.result()
+            rc, out, err = f_warm.result()
+        if rc != 0:
+            raise engine.EngineError("native crate for emit_batcher (+ appended wrapper module) does not build: %s" % err[-600:])
+        P = Program(u.tree)
+        P.add_dump(mir, "emit_batcher")
+        consts = bat.read_constants(P)
+        _log(ctx, "constants read from the MIR of `bounded`: delays %s, retry budget %s" % (consts["delays"], consts["retry_max"]))
+        encs = bat.build_encodings(P, consts)
+        for n, e in encs.items():
+            _log(ctx, "encoding %-9s %s" % (n, e.error or "%d SMT lines, %d division lemmas, %d panic obligations, %s" % (
+                len(e.S.lines), e.S.n_divlemmas, len(e.ex.panics), e.S.logic())))
+        window = getattr(encs["capacity"], "window", 32)
+        seq_n = getattr(encs["retry_seq"], "seq_n", max(consts["retry_max"]) + 2)
+        rc, out, err = nat.run(bat.native_main(consts, window))
+        if rc != 0:
+            raise engine.EngineError("native validation program failed (rc=%s): %s" % (rc, err[-500:]))
+        obs = bat.obligations(encs, consts)
+        vectors, problems = bat.validation_vectors(out, window, seq_n)
+        validations = _validate_all(ctx, u, encs, vectors, problems)
+        driver.decide_all(ctx, obs, validations, u.dir, lambda ob: nat)
+    except (engine.EngineError, Unsupported, Inconclusive) as e:
+        _fail_all(ctx, [n for n in C08_NAMES if not any(o["obligation"] == n for o in ctx.smt)], "E2 batcher unit: %s" % e)
+    except Exception as e:
+        _fail_all(ctx, [n for n in C08_NAMES if not any(o["obligation"] == n for o in ctx.smt)],
+                  "E2 batcher unit internal error: %s\n%s" % (e, traceback.format_exc()[-1200:]))
+    _log(ctx, "batcher unit done in %.0fs" % (time.time() - t0))
